@@ -496,5 +496,5 @@ META = {
     "the first non-decorator; the table is read by key only; spec resolution tests $__ALIAS_STACK first. "
     "Behaviour of user callables is out of reach.",
     "note": "Decides the listed structural clauses, not the behaviour. Trusted: frozenset union, list concatenation.",
-    "more": "Also decided: the threadability predictor's alias walker has a loop variant and reaches the onward predictor lookup only with a name known not to be an alias (no unbounded mutual recursion on a cycle).",
+    "more": "Also decided: the threadability predictor's alias walker has a loop variant and reaches the onward predictor lookup only with a name known not to be an alias (no unbounded mutual recursion on a cycle). The return-command normaliser hands the returned token list on as it is (no filtering or mapping of tokens: the user's arguments travel inside it).",
 }
